@@ -67,7 +67,10 @@ def run(ctx: Ctx):
     wf = pkg.func(f"{MOD}::_worker_func")
     wi = pkg.func(f"{MOD}::_worker_init")
     serial = [n for n in own_nodes(gen.node) if isinstance(n, ast.GeneratorExp)]
-    oks = len(serial) == 1 and u(serial[0].elt) == "do_work_func(x_n, *args)" and u(serial[0].generators[0].iter) == "x"
+    oks = False
+    if len(serial) == 1 and isinstance(serial[0].generators[0].target, ast.Name):
+        it_ = serial[0].generators[0].target.id
+        oks = u(serial[0].elt) == f"do_work_func({it_}, *args)" and u(serial[0].generators[0].iter) == "x"
     pool = [c for c in own_calls(gen.node) if isinstance(c.func, ast.Attribute) and c.func.attr in ("imap_unordered", "imap", "map")]
     okp = len(pool) == 1 and u(pool[0].args[0]) == "_worker_func" and u(pool[0].args[1]) == "x"
     ctor = [c for c in own_calls(gen.node) if isinstance(c.func, ast.Attribute) and c.func.attr == "Pool"]
@@ -233,18 +236,19 @@ def run(ctx: Ctx):
     where = f"{rel}::{er.qualname}"
     slices = {}
     for n in own_nodes(er.node):
-        if isinstance(n, ast.Subscript) and isinstance(n.value, ast.Name) and n.value.id in ("ref_transcripts", "hyp_transcripts") \
-                and isinstance(n.slice, ast.Slice) and "batch_size" in u(n.slice):
-            slices.setdefault(n.value.id, set()).add(u(n.slice))
+        if isinstance(n, ast.Subscript) and isinstance(n.value, ast.Name) and isinstance(n.slice, ast.Slice) and ".batch_size" in u(n.slice):
+            slices.setdefault(n.value.id, set()).add(u(n.slice).split(".")[-1] if ":" not in u(n.slice).split(".")[-1] else u(n.slice))
+    vals = list(slices.values())
     col.ob("G16", "S5", f"{where}::ref-and-hyp-consumed-with-the-same-bounds",
-           len(slices) == 2 and slices.get("ref_transcripts") == slices.get("hyp_transcripts") == {":options.batch_size", "options.batch_size:"},
+           len(slices) == 2 and vals[0] == vals[1] and len(vals[0]) == 2,
            f"reference and hypothesis lists are batched with {slices}", rel, er.line, sample={k: sorted(v) for k, v in slices.items()})
     # totals are folds of per-utterance values; the printed figure uses only folds / the per-utterance table
     rde = ReachingDefs(er.node)
-    outw = [c for c in own_calls(er.node) if isinstance(c.func, ast.Attribute) and c.func.attr == "write" and "options.out" in u(c.func.value)]
+    outw = [c for c in own_calls(er.node) if isinstance(c.func, ast.Attribute) and c.func.attr == "write" and u(c.func.value).endswith(".out")]
     col.floor("error_rate_output_sites", len(outw), 2)
     pme = parent_map(er.node)
-    loops = [n for n in own_nodes(er.node) if isinstance(n, ast.While) and "ref_transcripts" in u(n.test) and "max(" not in u(n.test)]
+    loops = [n for n in own_nodes(er.node) if isinstance(n, ast.While) and any(
+        call_name(c) == "error_rate" for c in ast.walk(n) if isinstance(c, ast.Call))]
     if len(loops) != 1:
         raise AnalysisError("C17: batching loop of the error-rate command not found")
     inside = {id(x) for x in ast.walk(loops[0])}
@@ -262,7 +266,7 @@ def run(ctx: Ctx):
     col.floor("error_rate_calls", len(ec), 1)
     for c in ec:
         kw = {k.arg: u(k.value) for k in c.keywords}
-        ok = (kw.get("ins_cost"), kw.get("del_cost"), kw.get("sub_cost")) == ("options.costs[0]", "options.costs[1]", "options.costs[2]") \
+        ok = tuple((kw.get(k) or "").split(".", 1)[-1] for k in ("ins_cost", "del_cost", "sub_cost")) == ("costs[0]", "costs[1]", "costs[2]") \
             and kw.get("norm") == "False" and kw.get("include_eos") == "False"
         col.ob("G1", "S2", f"{where}::error_rate(costs)", ok,
                f"error_rate is called with {kw}; --costs is documented as INS DEL SUB", rel, c.lineno, sample=kw)
